@@ -12,7 +12,12 @@
     does not depend on the key succeeded: the message parses, the signature is there and 64 bytes long,
     canonicalisation works) and `verifies key` (ed25519.Verify).
   * Time: `now` (milliseconds) is a parameter.  Timestamps are `spec.Timestamp` = uint64 milliseconds; the
-    model uses `Nat` and is exact below 2^63 (`Timestamp.Time()` converts through int64).
+    model uses `Nat`.  Every validity decision of the key ring (`WasValidAt`, `StrictValiditySignatureCheck`,
+    `publicKeyRequests`, the pruning of database answers, `ServerKeys.PublicKey`) is a comparison of two such
+    unsigned values — exact over the whole uint64 range, 2^63 and beyond included — and the only sum, `now + 7d`, is
+    `spec.AsTimestamp(time.Now().Add(7d))` (far below 2^63 for any clock reading).  The one remaining conversion
+    through int64 is `CheckKeys`' `keys.ValidUntilTS.Time().After(now)`: `checkKeys` is exact for valid_until_ts
+    below 2^63 (a response with a larger one is refused by the code: the failing-safe direction).
 -/
 import VModel.Json
 namespace V.KeyRing
@@ -85,12 +90,14 @@ structure Request where
 /-- `time.Hour * 24 * 7` in milliseconds -/
 def sevenDaysMs : Nat := 604800000
 
-/-- `StrictValiditySignatureCheck(atTs, validUntil)` with `time.Now()` = `now` ms -/
+/-- `StrictValiditySignatureCheck(atTs, validUntil)` with `time.Now()` = `now` ms: the millisecond counts are
+    compared as unsigned integers (`sevenDaysFutureTS := spec.AsTimestamp(time.Now().Add(7d))`), no conversion
+    to `time.Time` -/
 def strictValidity (atTs validUntil now : Nat) : Bool :=
   if validUntil = 0 then false
   else
-    let sevenDaysFuture := now + sevenDaysMs
-    let validUntilTS := if validUntil > sevenDaysFuture then sevenDaysFuture else validUntil
+    let sevenDaysFutureTS := now + sevenDaysMs
+    let validUntilTS := if validUntil > sevenDaysFutureTS then sevenDaysFutureTS else validUntil
     if atTs > validUntilTS then false else true
 
 /-- `NoStrictValidityCheck` -/
@@ -292,16 +299,17 @@ def checkKeys (serverName : Bytes) (nowMs : Nat) (keys : ServerKeys) : KeyChecks
      allEd25519ChecksOK := if hasEd then some allEd else none, ed25519Checks := eds },
    if allOK then some verifyKeys else none)
 
-/-- `ServerKeys.PublicKey(keyID, atTS)` -/
+/-- `ServerKeys.PublicKey(keyID, atTS)`: the current key while `atTS <= valid_until_ts`, else the old key of
+    that ID while `atTS < expired_ts` -/
 def publicKey (keys : ServerKeys) (keyID : Bytes) (atTS : Nat) : Option Bytes :=
   match keys.verifyKeys.find? (·.keyID == keyID) with
   | some cur => if atTS ≤ keys.validUntilTS then some cur.key else
       match keys.oldVerifyKeys.find? (·.keyID == keyID) with
-      | some old => if atTS ≤ old.expiredTS then some old.key else none
+      | some old => if atTS < old.expiredTS then some old.key else none
       | none => none
   | none =>
       match keys.oldVerifyKeys.find? (·.keyID == keyID) with
-      | some old => if atTS ≤ old.expiredTS then some old.key else none
+      | some old => if atTS < old.expiredTS then some old.key else none
       | none => none
 
 /-- `mapServerKeysToPublicKeyLookupResult(keys, results)` -/
@@ -460,6 +468,39 @@ def mayAsk (reqs : List Request) (dbm : KeyMap) (now : Nat) (q : KeyReq) (ts : N
   (match lookupIn dbm q with
    | none => true
    | some k => k.expiredTS == 0 && decide (k.validUntilTS ≤ now))
+
+/-! ### `ServerKeys.PublicKey`: which key of a key response is valid at an instant
+
+  Written from the property's validity clause ("before expired_ts for an expired key, otherwise at or before
+  valid_until_ts"): an entry of `verify_keys` is valid at or before the response's valid_until_ts, an entry of
+  `old_verify_keys` strictly BEFORE its expired_ts.  (The seven-day cap is the key ring's, not the response's.) -/
+
+/-- the current key of that ID, if it is valid at `t` -/
+def currentKeyAt (keys : ServerKeys) (keyID : Bytes) (t : Nat) : Option Bytes :=
+  match keys.verifyKeys.find? (fun e => e.keyID == keyID) with
+  | some e => if t ≤ keys.validUntilTS then some e.key else none
+  | none => none
+
+/-- the old key of that ID, if it is valid at `t` -/
+def oldKeyAt (keys : ServerKeys) (keyID : Bytes) (t : Nat) : Option Bytes :=
+  match keys.oldVerifyKeys.find? (fun e => e.keyID == keyID) with
+  | some e => if t < e.expiredTS then some e.key else none
+  | none => none
+
+/-- `out` is a correct answer: a key of that ID valid at `t`, or `none` when there is no such key -/
+def publicKeyOK (keys : ServerKeys) (keyID : Bytes) (t : Nat) (out : Option Bytes) : Bool :=
+  match out with
+  | some k => currentKeyAt keys keyID t == some k || oldKeyAt keys keyID t == some k
+  | none => (currentKeyAt keys keyID t).isNone && (oldKeyAt keys keyID t).isNone
+
+/-- the answer the clause determines; `none` = it does not determine one (a current and an old entry of that
+    ID, with different keys, are both valid at `t`) -/
+def publicKeyAnswer (keys : ServerKeys) (keyID : Bytes) (t : Nat) : Option (Option Bytes) :=
+  match currentKeyAt keys keyID t, oldKeyAt keys keyID t with
+  | some a, some b => if a == b then some (some a) else none
+  | some a, none => some (some a)
+  | none, some b => some (some b)
+  | none, none => some none
 
 def nth? {α} : List α → Nat → Option α
   | [], _ => none
